@@ -39,7 +39,7 @@ import (
 )
 
 type member struct {
-	Mode  string `json:"mode"`            // "kill" | "live" | "hold-kill"
+	Mode  string `json:"mode"`            // "kill" | "live" | "hold-kill" | "end-hold" (K = relevant call of the agent, roots: installation + socket, at which the agent itself is held)
 	DAG   string `json:"dag"`             // name of the definition
 	Prior bool   `json:"prior"`           // a completed run of the same DAG precedes
 	K     int    `json:"k"`               // kill: relevant call number (roots: installation + socket); live: number of the call on a marker file the run is held at (roots: markers only)
@@ -64,6 +64,7 @@ type group struct {
 	classes map[string]int // per call class: max count over the baselines
 	pauses  int            // number of calls the step scripts make on their marker files (= hold points of part b)
 	holds   []int          // the marker calls that open the file for the "begin"/"end" line: hold points of the hold-kill family
+	endFrom int            // smallest call number (over the baselines) that follows the last call on a marker file or step log: start of the end-of-run phase
 	before  string         // state summary before the run / after an un-killed run
 	after   string
 }
@@ -195,6 +196,15 @@ func (hn *harness) prepare(def *dagDef, prior bool, idx int) (*group, error) {
 		seqs = append(seqs, strings.Join(ks, " "))
 		np := 0
 		var holds []int
+		endFrom := 1
+		for _, c := range rr.trace.Calls {
+			if fk := in.lay.fileKind(c.Path); fk == "marker" || fk == "step-log" {
+				endFrom = c.K + 1
+			}
+		}
+		if g.endFrom == 0 || endFrom < g.endFrom {
+			g.endFrom = endFrom
+		}
 		for _, c := range rr.trace.Calls {
 			if in.lay.fileKind(c.Path) == "marker" {
 				np++
@@ -322,6 +332,29 @@ func main() {
 						continue
 					}
 					if err := hn.live(g, mb, replay != nil); err != nil {
+						res.CheckError("%v", err)
+					}
+				}
+			}
+			// (b') the agent itself held at every call of its end-of-run phase, observed by a fresh and a watching client
+			if !prior {
+				from := g.endFrom - 3
+				if from < 1 {
+					from = 1
+				}
+				if fl.Shard == 0 || replay != nil {
+					res.Count(fmt.Sprintf("end_hold_members:%s", def.Name), int64(g.n+3-from+1))
+				}
+				for k := from; k <= g.n+3; k++ {
+					mb := member{Mode: "end-hold", DAG: def.Name, Prior: prior, K: k}
+					if replay != nil {
+						if *replay != mb {
+							continue
+						}
+					} else if !fl.Mine(gi*59 + 5 + k) {
+						continue
+					}
+					if err := hn.endHold(g, mb, replay != nil); err != nil {
 						res.CheckError("%v", err)
 					}
 				}
